@@ -7,6 +7,7 @@ KINDS = ('consumed', 'rle-content', 'over-capacity', 'collect-left-input-without
 
 
 def one(ctx, lb, c):
+    streams.materialise(c)
     res = streams.compress(ctx, lb, c)
     ctx.ev()
     if res is None:
@@ -96,6 +97,6 @@ def run(ctx):
             ctx.nt(('exhaustive-input-class', i))
         ctx.extra['exhaustive_distinct_inputs'] = n_exh
     lb = core.build_lbzip2('hook')
-    cs = streams.compress_cases(ctx, 120 if q else 2000, 40 if q else 500) + boundary_cases(ctx, 80 if q else 1500)
+    cs = [c for c in streams.compress_cases(ctx, 120 if q else 2000, 40 if q else 500) if not c.get('gen')] + boundary_cases(ctx, 80 if q else 1500)
     core.pmap(lambda c: one(ctx, lb, c), cs)
     ctx.assumptions = ['the packing model (native/packmodel.c, codec_h.c:model_block) is the executable reading of the property']
